@@ -51,7 +51,7 @@ def canary_wrap_keeps_flag(vc):
     vc.check_eq(SS.next_session(cur)[0], cur[0], "canary")
 
 
-HARNESSES = [
+HARNESSES = SS.SEND_SD_OBLIGATIONS + [
     SS.ob_assign_outgoing_refines,
     ob_lemma_sequence_base,
     ob_lemma_sequence_step,
